@@ -604,6 +604,15 @@ func buildSweeps(thorough bool) []sweep {
 		gen: func(i []int) (Case, bool) {
 			return mkSeq(groups[i[0]], []int{i[1], i[2]}, i[3] == 1, i[4] == 0), true
 		}})
+	hostileDoc := "HOSTILE CALLER variant of %s (same axes and sizes, same fresh-instance oracle per step): the application keeps ONE writer instance per credential description (client.BasicAuth / BearerToken / APIKeyAuth value created once, used as AuthInfo of every operation with that credential and for every assignment of Runtime.DefaultAuthentication), and after each step the caller overwrites IN PLACE every value of every header, parsed form and trailer slice of the *http.Request the client built and of the request the server parsed, then deletes every key of those maps; the next step must still carry exactly its own credentials (storage shared between a writer and the requests it wrote, or between two requests, would show)"
+	sw = append(sw, sweep{name: "hostile-sequences-pairs",
+		doc:   fmt.Sprintf(hostileDoc, "sequences-pairs"),
+		sizes: []int{len(groups), ne, ne, 2, 2},
+		gen: func(i []int) (Case, bool) {
+			c := mkSeq(groups[i[0]], []int{i[1], i[2]}, i[3] == 1, i[4] == 0)
+			c.Hostile = true
+			return c, true
+		}})
 	if thorough {
 		sw = append(sw, sweep{name: "sequences-triples",
 			doc:   "as sequences-pairs, every ordered triple, plain variants over the wire",
@@ -653,6 +662,24 @@ func buildSweeps(thorough bool) []sweep {
 		gen: func(i []int) (Case, bool) {
 			return mkHist([]int{i[0], i[1]}, rservers[i[2]], i[3] == 1, i[4] == 0), true
 		}})
+	sw = append(sw, sweep{name: "hostile-default-reassignment-pairs",
+		doc:   fmt.Sprintf(hostileDoc, "default-reassignment-pairs"),
+		sizes: []int{nr, nr, len(rservers), 2, 2},
+		gen: func(i []int) (Case, bool) {
+			c := mkHist([]int{i[0], i[1]}, rservers[i[2]], i[3] == 1, i[4] == 0)
+			c.Hostile = true
+			return c, true
+		}})
+	if thorough {
+		sw = append(sw, sweep{name: "hostile-default-reassignment-triples",
+			doc:   fmt.Sprintf(hostileDoc, "default-reassignment-triples"),
+			sizes: []int{nr, nr, nr, len(rservers)},
+			gen: func(i []int) (Case, bool) {
+				c := mkHist([]int{i[0], i[1], i[2]}, rservers[i[3]], false, true)
+				c.Hostile = true
+				return c, true
+			}})
+	}
 	sw = append(sw, sweep{name: "default-reassignment-triples",
 		doc:   histDoc + " ^3 x 4 authenticators, plain variants over the wire",
 		sizes: []int{nr, nr, nr, len(rservers)},
@@ -661,7 +688,7 @@ func buildSweeps(thorough bool) []sweep {
 		}})
 
 	// small, discriminating sweeps first: a run cut by its time budget has then covered every clause
-	rank := map[string]int{"cross-kind": 0, "middleware": 1, "default-credential": 2, "decoy-carriers": 3, "default-reassignment-pairs": 4, "sequences-pairs": 4, "default-reassignment-triples": 5, "bearer-placements": 5, "apikey-cross": 6, "basic-config": 7, "bearer-token-values": 8, "sequences-triples": 9}
+	rank := map[string]int{"cross-kind": 0, "middleware": 1, "default-credential": 2, "decoy-carriers": 3, "default-reassignment-pairs": 4, "sequences-pairs": 4, "hostile-sequences-pairs": 4, "hostile-default-reassignment-pairs": 4, "hostile-default-reassignment-triples": 9, "default-reassignment-triples": 5, "bearer-placements": 5, "apikey-cross": 6, "basic-config": 7, "bearer-token-values": 8, "sequences-triples": 9}
 	sort.SliceStable(sw, func(i, j int) bool {
 		ri, ok := rank[sw[i].name]
 		if !ok {
@@ -790,6 +817,7 @@ func main() {
 		}
 	}
 	r.Nontrivial(distinct)
+	r.Set("hostile_caller", map[string]any{"writer_instances": "one per credential description per sequence, shared by AuthInfo and DefaultAuthentication", "scrubbed_after_each_step": []string{"built request: Header", "server request: Header, Form, PostForm, MultipartForm.Value, Trailer"}, "scrub": "every element of every value slice overwritten in place with REDACTED, then every key deleted", "sweeps": []string{"hostile-sequences-pairs", "hostile-default-reassignment-pairs", "hostile-default-reassignment-triples (thorough)"}})
 	r.Set("alphabet_atoms", len(atoms))
 	r.Set("alphabet_strings", len(pairs(atoms)))
 	r.Assume(
@@ -797,5 +825,5 @@ func main() {
 		"the wire is Request.Write + http.ReadRequest of the standard library (no socket, no server-side header validation)",
 		"combinations in which two writers set the same header or parameter are outside the space (the text does not say who wins)",
 		"MAY (never reported, recorded in the outcome labels): whether the request body is still readable after authentication (observed on the pinned tree: basic and api-key authenticators and bearer with a header or query token leave it intact, bearer reads a form body); empty key or token values; form placement with methods other than POST/PUT/PATCH; error value returned together with 'not applicable'; FailedBasicAuth after accepted credentials; OAuth2SchemeName when not applicable; what a Ctx callback's context carries")
-	r.Finish("every element of the stated sweeps (products of explicit axes, ambiguous and duplicated combinations removed by stated rules) is executed once on the real client writers, Runtime.CreateHttpRequest, Request.Write/http.ReadRequest and the real authenticator; one evaluation = one pipeline (a sequence of n steps counts n); the space includes decoy carriers (the credential's name in every place the authenticator is not specified to read, same and different values, methods with and without body) and ordered pairs (thorough: triples) of requests on one shared Runtime and authenticator value, each step judged as on fresh instances, and histories of 2-3 calls on one Runtime with Runtime.DefaultAuthentication re-assigned between the calls (6 values x 6 kinds of call per step); non-trivial = the request carried at least one credential or placement and the authenticator under test was consulted (or the oracle failed); distinct = number of different 64-bit FNV hashes of the canonical JSON of the case, so a case reached by two sweeps is counted once", complete)
+	r.Finish("every element of the stated sweeps (products of explicit axes, ambiguous and duplicated combinations removed by stated rules) is executed once on the real client writers, Runtime.CreateHttpRequest, Request.Write/http.ReadRequest and the real authenticator; one evaluation = one pipeline (a sequence of n steps counts n); the space includes decoy carriers (the credential's name in every place the authenticator is not specified to read, same and different values, methods with and without body) and ordered pairs (thorough: triples) of requests on one shared Runtime and authenticator value, each step judged as on fresh instances, and histories of 2-3 calls on one Runtime with Runtime.DefaultAuthentication re-assigned between the calls (6 values x 6 kinds of call per step), and the HOSTILE CALLER variants of the pair sweeps (hostile-sequences-pairs 3 x 78 x 78 x 2 x 2, hostile-default-reassignment-pairs 36 x 36 x 4 x 2 x 2; thorough also the 36^3 x 4 triples): one long-lived writer instance per credential description re-used across the steps as AuthInfo and as Runtime.DefaultAuthentication, and after every step every header / form value slice of the built request and of the request the server parsed overwritten in place and the maps emptied, every following step still judged as on fresh instances; non-trivial = the request carried at least one credential or placement and the authenticator under test was consulted (or the oracle failed); distinct = number of different 64-bit FNV hashes of the canonical JSON of the case, so a case reached by two sweeps is counted once", complete)
 }
